@@ -126,7 +126,9 @@ def build(cfg):
     kind = cfg["sampler"]
     if kind == "generic":
         transitions = {"walk": RecordingTransition(WalkTransition(), "walk"),
-                       "flip": RecordingTransition(FlipTransition(), "flip")}
+                       "flip": RecordingTransition(FlipTransition(), "flip"),
+                       # a second transition recording statistics under the same names
+                       "walk2": RecordingTransition(WalkTransition(), "walk2")}
         sampler = mici.samplers.MarkovChainMonteCarloMethod(rng, transitions)
         inits = [ChainState(pos=np.array([0.3 * (c + 1), -0.2]), cid=c) for c in range(n_chain)]
         if cfg["init_form"] == "dict":
@@ -212,7 +214,8 @@ def judge_against_log(cfg, res, acc, viol):
     generic = cfg["sampler"] == "generic"
     if ts is None and not generic:
         ts = "default"
-    keys = ["walk", "flip"] if generic else ["momentum_transition", "integration_transition"]
+    keys = ["walk", "flip", "walk2"] if generic else ["momentum_transition",
+                                                       "integration_transition"]
     for c in range(n_chain):
         log = res["log"].get(c, [])
         if len(log) != len(keys) * (n_warm + n_main):
